@@ -13,7 +13,7 @@ import itertools
 import z3
 
 MAX_ROUNDS = 12
-TIME_BUDGET_S = 20
+TIME_BUDGET_S = 60
 
 
 def nnf(assertions):
@@ -86,6 +86,23 @@ def _named_fn(e):
             and e.arg(0).sort().kind() == z3.Z3_INT_SORT)
 
 
+def _skolem_depth(e, memo):
+    """nesting depth of skolem-function applications (names with '!', arity >= 1) in a ground index term"""
+    k = e.get_id()
+    if k in memo:
+        return memo[k][0]
+    d = 0
+    if z3.is_app(e):
+        d = max([_skolem_depth(c, memo) for c in e.children()] or [0])
+        if e.num_args() >= 1 and e.decl().kind() == z3.Z3_OP_UNINTERPRETED and "!" in e.decl().name():
+            d += 1
+    memo[k] = (d, e)
+    return d
+
+
+MAX_SKOLEM_DEPTH = 3
+
+
 def _vars_in(e, acc=None):
     acc = {} if acc is None else acc
     if z3.is_var(e):
@@ -131,7 +148,11 @@ class Instantiator:
         self.instances = {}      # key -> formula
         self.n_inst = 0
         self.offsets = False
+        self.share = False
         self.shift_all = False
+        self.sk_memo = {}
+        self.base_apps = {}
+        self.apps = {}           # uninterpreted function name -> {id: ground application} (arity >= 2): triggers of multi-variable axioms
         self.round = 0
         self.gen = {}            # index term id -> round in which it first appeared as a read index
         self.shift_gen = 1
@@ -142,6 +163,12 @@ class Instantiator:
     def find(self, r):
         k = r.get_id()
         self.keep.setdefault(k, r)
+        if self.share and z3.is_app(r) and r.num_args() > 0 and r.decl().kind() == z3.Z3_OP_UNINTERPRETED:
+            # second pass: arrays given by the same function symbol (kids(m), pkg_clauses(t), ...) share their read sets - their arguments
+            # may be equal without being syntactically equal (a skolem index known to be 0)
+            fk = "fn:" + r.decl().name()
+            if self.parent.get(k, k) == k and k != fk:
+                self.parent[k] = fk
         while self.parent.get(k, k) != k:
             k = self.parent[k]
         return k
@@ -156,6 +183,11 @@ class Instantiator:
     # ---- ground read collection
     def note(self, t):
         self.gen.setdefault(t.get_id(), self.round)
+
+    def usable(self, t):
+        """index terms with deeply nested skolem functions (witness of a witness of a witness ...) are not used as instantiation candidates:
+        they only arise from unfolding forall-exists facts along their own witnesses"""
+        return _skolem_depth(t, self.sk_memo) <= MAX_SKOLEM_DEPTH
 
     def scan(self, e):
         k = e.get_id()
@@ -176,7 +208,7 @@ class Instantiator:
                     self.union(x, y)
         if d == z3.Z3_OP_SELECT:
             a, t = e.arg(0), e.arg(1)
-            if not self.ctx.has_var(t):
+            if not self.ctx.has_var(t) and self.usable(t):
                 roots, idx = _roots(a)
                 for r in roots:
                     if not self.ctx.has_var(r):
@@ -197,6 +229,8 @@ class Instantiator:
                     for j in idx:
                         if not self.ctx.has_var(j):
                             self.reads.setdefault(self.find(r), {}).setdefault(j.get_id(), j)
+        if d == z3.Z3_OP_UNINTERPRETED and e.num_args() >= 1 and not self.ctx.has_var(e):
+            self.apps.setdefault(e.decl().name(), {}).setdefault(k, e)
         if e.sort().kind() not in (z3.Z3_BOOL_SORT, z3.Z3_INT_SORT, z3.Z3_REAL_SORT, z3.Z3_ARRAY_SORT) and not self.ctx.has_var(e) and _simple(e):
             self.sort_terms.setdefault(e.sort().name(), {}).setdefault(k, e)
         for c in e.children():
@@ -248,11 +282,18 @@ class Instantiator:
                     visit(c, depth)
         visit(q.body(), 0)
         pools = []
+        pats = self.unary_patterns(q) if n == 1 else []
         for vi in range(n):
             sort = q.var_sort(n - 1 - vi)
             pool = {}
             if sort.kind() != z3.Z3_INT_SORT:
                 pool.update(self.sort_terms.get(sort.name(), {}))
+                # E-matching on the loop-free patterns f(.., x, ..) of a one-variable axiom: x := the argument of every ground application of f
+                for fname, ai in pats:
+                    for app in list(self.base_apps.get(fname, {}).values()):       # applications of the original problem only: no matching loops
+                        t = app.arg(ai)
+                        if t.sort() == sort:
+                            pool.setdefault(t.get_id(), t)
             elif arrays[vi]:
                 for rid in arrays[vi]:
                     pool.update(self.reads.get(rid, {}))
@@ -285,16 +326,77 @@ class Instantiator:
             pools.append(pool)
         return pools          # index by de Bruijn var index
 
+    def unary_patterns(self, q):
+        """applications f(.., x, ..) with the bound variable as a bare argument, minus those that would loop: f is dropped when the body also
+        applies f to a bigger term containing x (dsem(paren(d)) next to dsem(d): instantiating at t creates dsem(paren(t)), which would match again)"""
+        bare, nested = {}, set()
+
+        def has_x(e):
+            return self.ctx.has_var(e)
+
+        def visit(e, depth):
+            if z3.is_quantifier(e):
+                return                      # inner quantifiers: their own variables shift the indices; patterns are taken from the outer level only
+            if not z3.is_app(e):
+                return
+            if e.decl().kind() == z3.Z3_OP_UNINTERPRETED and e.num_args() >= 1:
+                for ai in range(e.num_args()):
+                    a = e.arg(ai)
+                    if z3.is_var(a) and z3.get_var_index(a) == 0:
+                        bare.setdefault(e.decl().name(), ai)
+                    elif has_x(a):
+                        nested.add(e.decl().name())
+            for c in e.children():
+                visit(c, depth)
+        visit(q.body(), 0)
+        return [(f, ai) for f, ai in bare.items() if f not in nested]
+
+    def trigger(self, q):
+        """an application f(.., x, .., y, ..) of an uninterpreted function that has every bound variable of a multi-variable quantifier as a
+        bare argument (eqm(x, y) in the symmetry / congruence axioms): such a quantifier is instantiated only with the argument tuples of the
+        ground applications of f (E-matching on that pattern) instead of the product of its per-variable pools"""
+        n = q.num_vars()
+        if n < 2:
+            return None
+        found = []
+
+        def visit(e, depth):
+            if found or not z3.is_app(e):
+                if z3.is_quantifier(e):
+                    visit(e.body(), depth + e.num_vars())
+                return
+            if e.decl().kind() == z3.Z3_OP_UNINTERPRETED and e.num_args() >= 2 and depth == 0:
+                pos = {}
+                for ai in range(e.num_args()):
+                    a = e.arg(ai)
+                    if z3.is_var(a):
+                        pos.setdefault(z3.get_var_index(a), ai)
+                if len(pos) == n and all(0 <= v < n for v in pos):
+                    found.append((e.decl().name(), pos))
+                    return
+            for c in e.children():
+                visit(c, depth)
+        visit(q.body(), 0)
+        return found[0] if found else None
+
     def inst(self, e, path):
         if z3.is_quantifier(e):
             if not e.is_forall():
                 raise ValueError("existential after nnf")
             n = e.num_vars()
-            pools = self.candidates(e)
             body = e.body()
             out = []
-            keys = [list(p.items()) for p in pools]
-            for combo in itertools.product(*keys):
+            trig = self.trigger(e)
+            if trig is not None:
+                fname, pos = trig
+                combos = []
+                for app in list(self.apps.get(fname, {}).values()):
+                    combos.append([(app.arg(pos[vi]).get_id(), app.arg(pos[vi])) for vi in range(n)])
+            else:
+                pools = self.candidates(e)
+                keys = [list(p.items()) for p in pools]
+                combos = itertools.product(*keys)
+            for combo in combos:
                 key = (path, e.get_id(), tuple(k for k, _ in combo))
                 f = self.instances.get(key)
                 if f is None:
@@ -320,6 +422,7 @@ class Instantiator:
         for q in self.quant:
             self.scan(q)        # ground reads inside quantified formulas count as well
         self.base_terms = {k for d in self.reads.values() for k in d}
+        self.base_apps = {f: dict(d) for f, d in self.apps.items()}
         result = []
         rounds = 0
         last = -1
@@ -342,9 +445,11 @@ class Instantiator:
                                       "index_terms": last, "truncated": self.truncated or rounds >= MAX_ROUNDS}
 
 
-def to_qf(assertions, offsets=False):
+def to_qf(assertions, offsets=0):
+    """offsets: 0 plain, 1 (or True) + neighbours and shifted index terms, 2 + read sets shared between arrays of the same function symbol"""
     it = Instantiator(assertions)
-    it.offsets = offsets
+    it.offsets = bool(offsets)
+    it.share = offsets is not True and offsets >= 2
     if not it.quant:
         return it.ground, {"quantified": 0, "instances": 0, "rounds": 0, "index_terms": 0, "truncated": False}
     return it.run()
